@@ -12,6 +12,7 @@ HELPERS = ["all", "any", "count", "count_unique", "first", "last", "max", "mean"
            "quantile", "std", "sum", "var"]
 KINDS = ["bool", "int", "float", "date", "datetime"]
 OPTIONAL = {"max", "min", "mode", "first", "last", "nth"}
+SLIM = ("h", "kind", "eq", "sametype", "err", "status", "predicted", "broken", "eq2", "sametype2")
 VERIF = os.path.dirname(os.path.dirname(os.path.abspath(__file__)))
 
 
@@ -65,8 +66,12 @@ def same(a, b):
 def to_record(hist, idx, c, o, si):
     n, p = o["numba"], o["python"]
     eq = [len(n) == len(p)] + [same(x, y) for x, y in zip(n, p)]
+    n2, p2 = o.get("numba2", []), o.get("python2", [])
+    eq2 = [len(n2) == len(p2)] + [same(x, y) for x, y in zip(n2, p2)]
     earlier = [e for e in hist[:idx] if e["t"] == "call"]
-    return {"h": c["h"], "kind": c["kind"], "a": c["a"], "layout": c["layout"], "eq": eq, "sametype": o["tn"] == o["tp"],
+    return {"h": c["h"], "h2": c.get("h2", ""), "eq2": eq2, "sametype2": o.get("tn2", "") == o.get("tp2", ""),
+            "numba2": n2, "python2": p2, "broken2": bool(c.get("broken2", False)),
+            "kind": c["kind"], "a": c["a"], "layout": c["layout"], "eq": eq, "sametype": o["tn"] == o["tp"],
             "err": o["err"], "status": o["status"], "predicted": c["status"], "broken": bool(c.get("broken", False)),
             "numba": n, "python": p, "tn": o["tn"], "tp": o["tp"],
             "earlier": [[e["h"], e["kind"]] for e in earlier], "segment": si,
@@ -75,15 +80,16 @@ def to_record(hist, idx, c, o, si):
 
 def sig_of(rec):
     earlier_same_kind = [h for h, k in rec["earlier"] if k == rec["kind"]]
-    return {"h": rec["h"], "class": cls(rec["h"]), "kind": rec["kind"],
+    return {"h": rec["h"], "class": cls(rec["h"]), "kind": rec["kind"], "h2": rec.get("h2", ""),
+            "second_predicted_broken_by_jit_model": rec.get("broken2", False),
             # named trigger of KF-C08-optional-order: AggJit.tla's damage model (Broken) predicted this call
             "predicted_broken_by_jit_model": rec["broken"],
             "max_or_min_called_earlier_for_kind": any(h in ("max", "min") for h in earlier_same_kind)}
 
 
-def gen_histories(ctx, helpers, kinds, maxcalls, maxprocs):
-    cfg = ("INIT Init\nNEXT Next\nINVARIANT Inv\nCONSTANTS\n MaxCalls = %d\n MaxProcs = %d\n Emit = TRUE\n Helpers = {%s}\n Kinds = {%s}\n"
-           % (maxcalls, maxprocs, ", ".join('"%s"' % h for h in helpers), ", ".join('"%s"' % k for k in kinds)))
+def gen_histories(ctx, helpers, kinds, maxcalls, maxprocs, two=False):
+    cfg = ("INIT Init\nNEXT Next\nINVARIANT Inv\nCONSTANTS\n MaxCalls = %d\n MaxProcs = %d\n Emit = TRUE\n Helpers = {%s}\n Kinds = {%s}\n TwoHelperCalls = %s\n"
+           % (maxcalls, maxprocs, ", ".join('"%s"' % h for h in helpers), ", ".join('"%s"' % k for k in kinds), "TRUE" if two else "FALSE"))
     out = []
     for init in ("Init", "InitOff"):
         r = ctx.model_check("AggJitMC", cfg_text=cfg.replace("INIT Init", "INIT " + init), timeout=1800)
@@ -98,12 +104,15 @@ def run(ctx):
     hists = gen_histories(ctx, HELPERS, ["float", "int"] if quick else ["float", "int", "date"], 2, 2)
     ctx.extra["histories_enumerated"] = len(hists)
     by_class = {}
-    for h in hists:
+    for h in (hists if not quick else rng.sample(hists, 2500)):
         calls = [e for e in h if e["t"] == "call"]
         key = (tuple(cls(e["h"]) for e in calls), tuple(e["cache"] for e in h if e["t"] == "proc"), len(calls))
         by_class.setdefault(key, []).append(h)
     chosen = []
-    for key in sorted(by_class):
+    keys = sorted(by_class)
+    if quick:
+        keys = rng.sample(keys, min(len(keys), 45))       # the thorough tier takes every stratum
+    for key in keys:
         pool = by_class[key]
         k = 1 if quick else 4
         chosen += rng.sample(pool, min(k, len(pool)))
@@ -113,22 +122,58 @@ def run(ctx):
         return (len(calls) == 2 and sum(1 for e in h if e["t"] == "proc") == 1 and h[0]["cache"]
                 and calls[0]["kind"] == calls[1]["kind"] and calls[0]["h"] != calls[1]["h"])
     pairs = [h for h in hists if single_proc_pair(h)]
-    pairs = rng.sample(pairs, min(len(pairs), 40 if quick else 700))
+    pairs = rng.sample(pairs, min(len(pairs), 10 if quick else 700))
     chosen += pairs
     # three calls over kernel-class representatives, up to three processes (cache shared / off)
     hists3 = gen_histories(ctx, ["max", "first", "mode", "mean"], ["float", "int"] if quick else ["float", "date", "bool"], 3, 3)
     ctx.extra["histories_enumerated_3calls"] = len(hists3)
     three = [h for h in hists3 if sum(1 for e in h if e["t"] == "call") == 3]
     chosen += rng.sample(three, min(len(three), 25 if quick else 400))
+    # one aggregate() call carrying two helpers on the same column, every ordered pair (single call, single process)
+    hists2 = gen_histories(ctx, HELPERS, ["float", "date"] if quick else ["float", "int", "date", "bool"], 1, 1, two=True)
+    two = [h for h in hists2 if any(e["t"] == "call" and e.get("h2") for e in h) and h[0]["cache"]]
+    ctx.extra["histories_enumerated_two_helper_calls"] = len(two)
+    # stratified: every ordered pair of distinct kernels at least once (these are first-use orders as well)
+    kern = lambda h: "generic:" + h if h in ("all", "any", "count", "max", "mean", "median", "min", "std", "sum", "var") else \
+        ("nth" if h in ("first", "last", "nth") else h)
+    strata = {}
+    for h in two:
+        c = [e for e in h if e["t"] == "call"][0]
+        strata.setdefault((kern(c["h"]), kern(c["h2"])), []).append(h)
+    for key in sorted(strata):
+        chosen += rng.sample(strata[key], min(len(strata[key]), 1 if quick else 4))
     chosen = [json.loads(json.dumps(h)) for h in chosen]
+    # record -> validate: the full helper x data-layout matrix in one interpreter per column type (every kernel compiled
+    # once; first/last/nth/mode run before max/min so that the recorded order defect does not mask anything)
+    order = ["first", "last", "nth", "mode"] + [h for h in HELPERS if h not in ("first", "last", "nth", "mode", "max", "min")] + ["max", "min"]
+    matrix = []
+    for kind in (["float", "date"] if quick else KINDS):
+        hist = [{"t": "proc", "cache": True}]
+        for h in order:
+            if kind in ("date", "datetime") and h not in ("count", "count_unique", "first", "last", "nth", "mode", "min", "max"):
+                continue
+            for layout in range(7):
+                hist.append({"t": "call", "h": h, "kind": kind, "status": "", "broken": False, "layout": layout, "h2": "",
+                             "a": {"dropna": rng.choice([True, False]), "idx": rng.choice([0, 1, -1, 5]), "q4": rng.choice([1, 2, 3])}})
+        # larger random groups (16..40 rows, few distinct values => ties, interleaved) for the order / sort sensitive helpers
+        for h in ("mode", "first", "last", "nth", "count_unique", "median", "quantile"):
+            if kind in ("date", "datetime") and h in ("median", "quantile"):
+                continue
+            for _ in range(6 if quick else 30):
+                n1, n2 = rng.randint(16, 40), rng.randint(1, 5)
+                xs = [rng.randrange(4) for _ in range(n1 + n2)]
+                hist.append({"t": "call", "h": h, "kind": kind, "status": "", "broken": False, "layout": -1, "h2": "",
+                             "data": [[0] * n1 + [1] * n2, xs],
+                             "a": {"dropna": rng.choice([True, False]), "idx": rng.choice([0, 1, -1, 5]), "q4": rng.choice([1, 2, 3])}})
+        matrix.append(hist)
     for h in chosen:
         for e in h:
             if e["t"] == "call":
-                e["layout"] = rng.randrange(4)
+                e["layout"] = rng.randrange(7)
                 e["a"] = {"dropna": rng.choice([True, False]), "idx": rng.choice([0, 1, -1, 5]), "q4": rng.choice([1, 2, 3])}
     records = []
     with concurrent.futures.ThreadPoolExecutor(16) as ex:
-        futs = {ex.submit(run_history, h, ctx.seed): h for h in chosen}
+        futs = {ex.submit(run_history, h, ctx.seed): h for h in matrix + chosen}
         for f in concurrent.futures.as_completed(futs):
             h = futs[f]
             res = f.result()
@@ -136,7 +181,7 @@ def run(ctx):
             for (c, o, si), idx in zip(res, idxs):
                 records.append(to_record(h, idx, c, o, si))
     records.sort(key=lambda r: json.dumps(r["hist"]) + r["h"])
-    slim = [{k: r[k] for k in ("h", "kind", "eq", "sametype", "err", "status", "predicted", "broken")} for r in records]
+    slim = [{k: r[k] for k in SLIM} for r in records]
     bad = ctx_validate(ctx, slim)
     for i, clause in bad:
         ctx.fail(clause, sig_of(records[i]), {"rec": records[i]})
@@ -189,7 +234,7 @@ def replay(ctx, rp):
         res = run_history(hist, 0)
         idxs = [i for i, e in enumerate(hist) if e["t"] == "call"]
         recs = [to_record(hist, idx, c, o, si) for (c, o, si), idx in zip(res, idxs)]
-        slim = [{k: r[k] for k in ("h", "kind", "eq", "sametype", "err", "status", "predicted", "broken")} for r in recs]
+        slim = [{k: r[k] for k in SLIM} for r in recs]
         bad = ctx_validate(ctx, slim)
         for i, clause in bad:
             ctx.fail(clause, sig_of(recs[i]), {"rec": recs[i]})
